@@ -105,9 +105,24 @@ def run_gogen(report):
 
 
 # ---------------------------------------------------------------- Coq
-def forbidden_scan():
+def coq_deps(pid):
+    """the .v files Properties/<pid>.v depends on (transitively), from coqdep's .d files via make -n ... fallback: all"""
+    rel = "theories/Properties/%s.v" % pid
+    rc, out = sh("coqdep -Q theories Twig -sort %s 2>/dev/null" % rel, cwd=COQ, timeout=300)
+    files = [f for f in out.split() if f.endswith(".v")]
+    return files if rc == 0 and files else None
+
+
+def forbidden_scan(pid=None):
     bad = []
-    for p in sorted(glob.glob(os.path.join(COQ, "theories", "**", "*.v"), recursive=True)) + [os.path.join(OCAML, "Extract.v")]:
+    files = None
+    if pid is not None:
+        d = coq_deps(pid)
+        if d:
+            files = [os.path.join(COQ, f) for f in d] + roots_vfiles(pid)
+    if files is None:
+        files = sorted(glob.glob(os.path.join(COQ, "theories", "**", "*.v"), recursive=True))
+    for p in sorted(set(files)):
         try:
             src = open(p, encoding="utf-8", errors="replace").read()
         except OSError:
@@ -141,9 +156,46 @@ def strip_comments(src):
     return "".join(out)
 
 
-def coq_make(report, timeout=3000):
-    """make -k so that everything that can compile does; returns set of .v files that failed"""
-    rc, out = sh(["make", "-k", "-j16"], cwd=COQ, timeout=timeout)
+def roots_lines(pid, seen=None):
+    """lines of ocaml/roots/<pid>.txt with `INCLUDE other.txt` expanded"""
+    if seen is None:
+        seen = set()
+        return roots_lines("_base", seen) + roots_lines(pid, seen)
+    f = os.path.join(OCAML, "roots", pid + ".txt")
+    if pid in seen or not os.path.exists(f):
+        return []
+    seen.add(pid)
+    out = []
+    for line in open(f):
+        line = line.strip()
+        if line.startswith("INCLUDE "):
+            out += roots_lines(line[8:].strip().replace(".txt", ""), seen)
+        elif line and not line.startswith("#"):
+            out.append(line)
+    return out
+
+
+def roots_vfiles(pid):
+    """the theories/*.v files named by the Require lines of a property's extraction roots"""
+    res = []
+    for line in roots_lines(pid):
+        m = re.match(r"From Twig Require Import (.*)\.$", line)
+        if m:
+            for mod in m.group(1).split():
+                res.append(os.path.join(COQ, "theories", *mod.split(".")) + ".v")
+    return res
+
+
+def coq_make(report, pid=None, timeout=1200):
+    """make -k so that everything that can compile does; with pid only what that property needs
+    (its Properties file and the modules its generator extracts); returns the .v files that failed"""
+    if pid is None:
+        rc, out = sh(["make", "-k", "-j16"], cwd=COQ, timeout=timeout)
+    else:
+        rc0, out0 = sh(["make", "Makefile.coq"], cwd=COQ, timeout=300)
+        targets = ["theories/Properties/%s.vo" % pid] + [os.path.relpath(f, COQ)[:-2] + ".vo" for f in roots_vfiles(pid)]
+        rc, out = sh(["make", "-f", "Makefile.coq", "-k", "-j16"] + sorted(set(targets)), cwd=COQ, timeout=timeout)
+        out = out0 + out
     report["coq_make_rc"] = rc
     failed = []
     for m in re.finditer(r'File "\./(theories/[^"]+\.v)", line (\d+), characters[^\n]*\n(Error[^\n]*(?:\n[^\n]+){0,6})', out):
@@ -225,66 +277,81 @@ def split_assumptions(txt):
 
 # ---------------------------------------------------------------- OCaml driver and Go runner
 def build_driver(report, pid=None):
-    """extract the models and build the case generator of one property (or of all when pid is None)"""
-    model_vos = glob.glob(os.path.join(COQ, "theories", "Base", "*.vo")) + glob.glob(os.path.join(COQ, "theories", "Model", "*.vo")) + \
-        glob.glob(os.path.join(COQ, "theories", "Spec", "*.vo")) + glob.glob(os.path.join(COQ, "theories", "Gen", "*.vo"))
-    model_ml = os.path.join(OCAML, "model.ml")
-    write_extract_v()
-    if newest(model_vos + [os.path.join(OCAML, "Extract.v")]) > newest([model_ml]):
-        rc, out = sh("coqc -Q ../coq/theories Twig -w none Extract.v", cwd=OCAML, timeout=900)
-        if rc != 0:
-            report["build_errors"].append("extraction failed:\n" + out[-2000:])
-            return None
-    mods = sorted(os.path.basename(f)[:-3] for f in glob.glob(os.path.join(OCAML, "c[0-9][0-9].ml")))
-    for m in mods:
-        pm = os.path.join(OCAML, "main_%s.ml" % m)
-        body = "(* GENERATED by bin/vlib.py *)\nlet () = Drivermain.main %s.run\n" % m.capitalize()
-        if not os.path.exists(pm) or open(pm).read() != body:
-            open(pm, "w").write(body)
-    dune = "; GENERATED by bin/vlib.py: one executable per property generator ocaml/cNN.ml\n(executables\n (names %s)\n (flags (:standard -w -a)))\n" % " ".join("main_" + m for m in mods)
-    pd = os.path.join(OCAML, "dune")
-    if not os.path.exists(pd) or open(pd).read() != dune:
-        open(pd, "w").write(dune)
-    targets = ["main_" + m for m in mods] if pid is None else ["main_" + pid.lower()]
+    """extract the models a property's generator needs (ocaml/roots/<pid>.txt) and build that generator in its own
+    directory work/ocaml/<pid>/ (sources symlinked from /verif/ocaml), so that other properties' files cannot break it"""
+    pids = [pid] if pid else sorted(os.path.basename(f)[:-3].upper() for f in glob.glob(os.path.join(OCAML, "c[0-9][0-9].ml")))
     ok = None
-    for t in targets:
-        rc, out = sh("dune build ./%s.exe 2>&1" % t, cwd=OCAML, timeout=900)
-        if rc != 0:
-            report["build_errors"].append("case generator %s failed to build:\n%s" % (t, out[-3000:]))
-            if pid is not None:
-                return None
-        else:
-            ok = os.path.join(OCAML, "_build", "default", t + ".exe")
+    for q in pids:
+        exe = build_driver_one(report, q)
+        if exe:
+            ok = exe
+        elif pid:
+            return None
     return ok
 
 
-def write_extract_v():
-    """Extract.v is assembled from ocaml/roots/*.txt (one fragment per property: Require lines and ROOT lines)"""
-    reqs, roots = [], []
-    for f in sorted(glob.glob(os.path.join(OCAML, "roots", "*.txt"))):
-        for line in open(f):
-            line = line.strip()
-            if line.startswith("ROOT "):
-                if line[5:] not in roots:
-                    roots.append(line[5:])
-            elif line and not line.startswith("#") and line not in reqs:
-                reqs.append(line)
-    body = ("(* GENERATED from ocaml/roots/*.txt by bin/vlib.py. Extraction of the executable models for the correspondence driver.\n"
+def build_driver_one(report, pid):
+    d = os.path.join(WORK, "ocaml", pid)
+    os.makedirs(d, exist_ok=True)
+    low = pid.lower()
+    if not os.path.exists(os.path.join(OCAML, low + ".ml")):
+        report["build_errors"].append("no case generator ocaml/%s.ml" % low)
+        return None
+    lines = roots_lines(pid)
+    reqs = [l for l in lines if not l.startswith("ROOT ")]
+    roots = []
+    for l in lines:
+        if l.startswith("ROOT ") and l[5:] not in roots:
+            roots.append(l[5:])
+    body = ("(* GENERATED from ocaml/roots/%s.txt by bin/vlib.py. Extraction of the executable models for the correspondence driver.\n"
             "   ExtrOcamlBasic only: bool, option, unit, list, prod, sumbool map to OCaml types; byte, positive, N, Z, nat stay\n"
             "   extracted inductives. No Extract Constant, no further Extract Inductive. *)\n"
-            "From Coq Require Import Extraction ExtrOcamlBasic.\n" + "\n".join(reqs) +
+            "From Coq Require Import Extraction ExtrOcamlBasic.\n" % pid + "\n".join(dict.fromkeys(reqs)) +
             "\nExtraction Language OCaml.\nExtraction \"model.ml\"\n  " + "\n  ".join(roots) + ".\n")
-    p = os.path.join(OCAML, "Extract.v")
-    if not os.path.exists(p) or open(p).read() != body:
-        open(p, "w").write(body)
+    ev = os.path.join(d, "Extract.v")
+    if not os.path.exists(ev) or open(ev).read() != body:
+        open(ev, "w").write(body)
+    vos = [f[:-2] + ".vo" for f in roots_vfiles(pid)]
+    model_ml = os.path.join(d, "model.ml")
+    if newest(vos + [ev]) > newest([model_ml]) or not os.path.exists(model_ml):
+        rc, out = sh("coqc -Q %s Twig -w none Extract.v" % os.path.join(COQ, "theories"), cwd=d, timeout=900)
+        if rc != 0:
+            report["build_errors"].append("extraction for %s failed:\n%s" % (pid, out[-2000:]))
+            return None
+    # sources: symlinks to every hand-written module (dune compiles only what main depends on)
+    for f in glob.glob(os.path.join(OCAML, "*.ml")):
+        b = os.path.basename(f)
+        if b in ("model.ml",) or b.startswith("main_"):
+            continue
+        t = os.path.join(d, b)
+        if not os.path.islink(t) or os.readlink(t) != f:
+            if os.path.lexists(t):
+                os.remove(t)
+            os.symlink(f, t)
+    for t in glob.glob(os.path.join(d, "*.ml")):
+        if os.path.islink(t) and not os.path.exists(t):
+            os.remove(t)
+    files = {"main.ml": "(* GENERATED *)\nlet () = Drivermain.main %s.run\n" % low.capitalize(),
+             "dune": "; GENERATED\n(executable\n (name main)\n (flags (:standard -w -a)))\n",
+             "dune-project": "(lang dune 2.9)\n"}
+    for n, c in files.items():
+        pth = os.path.join(d, n)
+        if not os.path.exists(pth) or open(pth).read() != c:
+            open(pth, "w").write(c)
+    rc, out = sh("dune build --root . ./main.exe 2>&1", cwd=d, timeout=900)
+    if rc != 0:
+        report["build_errors"].append("case generator of %s failed to build:\n%s" % (pid, out[-3000:]))
+        return None
+    return os.path.join(d, "_build", "default", "main.exe")
 
 
-def build_runner(report, race=False):
-    exe = os.path.join(BIN, "runner-race" if race else "runner")
+def build_runner(report, race=False, pid=None):
+    os.makedirs(os.path.join(WORK, pid or "all", "bin"), exist_ok=True)
+    exe = os.path.join(WORK, pid or "all", "bin", "runner-race" if race else "runner")
     src = HARNESS
     if os.path.abspath(REPO) != "/repo":
         # scratch clone under test (VERIF_REPO): same harness sources, replace directive pointed at it
-        src = os.path.join(WORK, "harness-alt")
+        src = os.path.join(WORK, pid or "all", "harness-alt")
         shutil.rmtree(src, ignore_errors=True)
         shutil.copytree(HARNESS, src)
         gm = open(os.path.join(src, "go.mod")).read().replace("=> /repo", "=> " + os.path.abspath(REPO))
@@ -299,7 +366,7 @@ def build_runner(report, race=False):
         tgt = os.path.join(os.path.abspath(REPO), os.path.basename(h))
         if not os.path.exists(tgt):
             ov[tgt] = h
-    ovf = os.path.join(WORK, "overlay.json")
+    ovf = os.path.join(WORK, pid or "all", "overlay.json")
     json.dump({"Replace": ov}, open(ovf, "w"))
     cmd = ["go", "build", "-tags", "verif", "-overlay", ovf] + (["-race"] if race else []) + ["-o", exe, "."]
     rc, out = sh(cmd, cwd=src, timeout=900)
